@@ -253,6 +253,23 @@ def f_unknown_keys(c):
     c.expect = ("valid",)
 
 
+def f_unknown_lookalike_keys(c):
+    """Unknown keys that merely look like real options (dashed, upper-case, camelCase, suffixed spellings), carrying values
+    that would be invalid for the real option: they are unknown keys all the same and must be ignored."""
+    bad = {"schema_path": "no/such/schema.graphql", "queries_path": "no/such/queries", "target_package_name": "not a name",
+           "target_package_path": "no/such/dir", "client_name": "class", "client_file_name": "1bad", "base_client_name": "NoSuchClass",
+           "base_client_file_path": "no/such/file.py", "enums_module_name": "a-b", "input_types_module_name": "", "fragments_module_name": "def",
+           "include_comments": "sometimes", "target_file_path": "schema.txt", "schema_variable_name": "1x", "type_map_variable_name": "a b",
+           "remote_schema_url": "://nothing", "plugins": ["no.such.Plugin"], "files_to_include": ["no/such/file.py"]}
+    for k, v in bad.items():
+        parts = k.split("_")
+        for alt in ("-".join(parts), k.upper(), parts[0] + "".join(p_.title() for p_ in parts[1:]), k + "_", "x_" + k, k.replace("_", ".") if False else k + "-"):
+            if alt != k:
+                c.cfg[alt] = v
+    c.note = "dashed, upper-case, camelCase, suffixed and prefixed spellings of every option"
+    c.expect = ("valid",)
+
+
 def f_reordered_keys(c):
     items = list(c.cfg.items())
     scal = [(k, v) for k, v in items if not isinstance(v, dict)]
@@ -654,7 +671,8 @@ OP_RULES = ["unknown_field", "leaf_with_selection", "object_without_selection", 
             "variable_not_input_type", "impossible_fragment_spread", "duplicate_variable", "duplicate_directive", "duplicate_argument"]
 
 FAULTS: Dict[str, Callable] = {
-    "control:no_fault": f_no_fault, "control:unknown_keys": f_unknown_keys, "control:reordered_keys": f_reordered_keys,
+    "control:no_fault": f_no_fault, "control:unknown_keys": f_unknown_keys, "control:unknown_lookalike_keys": f_unknown_lookalike_keys,
+    "control:reordered_keys": f_reordered_keys,
     "control:graphql_comments": f_graphql_comments, "control:header_var_set": f_header_var_set, "control:deprecated_section": f_deprecated_section, "control:unrelated_tables": f_unrelated_tables,
     "control:upper_suffix": f_upper_suffix,
     "control:comments_boolean": f_comments_boolean,
@@ -688,6 +706,40 @@ C17_CORPUS = ["W3-chains-diamonds-shared", "W15-custom-ops-fragments-only", "W11
 
 
 # ------------------------------------------------------------------------------------
+
+def _source_texts(root):
+    """{relative path: text} of the project's own source files (configuration, GraphQL files, included python files)."""
+    out = {}
+    for dp, dns, fns in os.walk(root):
+        dns[:] = [d for d in dns if d not in ("out", "__pycache__")]
+        for fn in fns:
+            if fn.startswith("job-"):
+                continue
+            pth = os.path.join(dp, fn)
+            if os.path.islink(pth):
+                continue
+            try:
+                out[os.path.relpath(pth, root)] = open(pth, encoding="utf-8").read()
+            except (OSError, UnicodeDecodeError):
+                out[os.path.relpath(pth, root)] = None
+    return out
+
+
+def _snapshot_with_texts(snapshot, root, texts_by_path):
+    """`snapshot` (taken while the un-faulted files were on disk) with the entries of the files that the child rewrites
+    replaced by the hash of the text it writes: the project as the judged run finds it."""
+    import hashlib as _h
+    out = dict(snapshot)
+    for pth, text in texts_by_path.items():
+        rel = os.path.normpath(os.path.relpath(pth, root))
+        out[rel] = _h.sha256(text.encode("utf-8")).hexdigest()
+        d = os.path.dirname(rel)
+        while d and d != ".":
+            out.setdefault(d + "/", "dir")
+            d = os.path.dirname(d)
+    return out
+
+
 
 def _project_snapshot(root):
     snap = genrun.snapshot(root)
@@ -755,6 +807,7 @@ def run_case(case, ch: Choices) -> RunResult:
                     with open(target, "w") as f:
                         f.write("# user's own file at the target path\n")
         ctx = Ctx(root, world, mat, ch)
+        texts_before = _source_texts(root)
         out = fn(ctx)
         if out == "skip":
             res.discarded = "fault-not-applicable-to-world"
@@ -762,6 +815,44 @@ def run_case(case, ch: Choices) -> RunResult:
         ctx.write_config()
         mat = ctx.mat
         expect = ctx.expect
+        # ---- history inside one interpreter: the process first generates the un-faulted project (into another target), the
+        # fault is then written into the very same files, and the judged run follows.  Only for faults that merely change or add
+        # source files (what was read once must be read again).
+        pre_runs = None
+        fam_ = fault_name.split(":")[0]
+        if fam_ in ("syntax", "operation-validity", "schema-validity", "control") and expect[0] in ("invalid", "valid") \
+                and (p.get("in_process") if "in_process" in p else ch.chance("hist.in_process", 1, 4)):
+            texts_after = _source_texts(root)
+            if set(texts_before) <= set(texts_after) and not ctx.env and not ctx.env_unset and ctx.argv == list(mat["argv"]):
+                changed = {k: v for k, v in texts_after.items() if texts_before.get(k) != v}
+                if changed and "pyproject.toml" in texts_after and all(v is not None for v in changed.values()) \
+                        and all(texts_before.get(k, "") is not None for k in changed):
+                    import re as _re
+                    cfg_now = texts_after["pyproject.toml"]
+                    cfg_first = texts_before["pyproject.toml"]
+                    if world["strategy"] == "client":
+                        if _re.search(r'(?m)^target_package_name\s*=', cfg_first):
+                            cfg_first = _re.sub(r'(?m)^target_package_name\s*=.*$', 'target_package_name = "first_run_pkg"', cfg_first)
+                        else:
+                            cfg_first = cfg_first.replace("[tool.ariadne-codegen]", '[tool.ariadne-codegen]\ntarget_package_name = "first_run_pkg"', 1)
+                    else:
+                        sfx = os.path.splitext(mat["cfg"].get("target_file_path", "x.py"))[1] or ".py"
+                        cfg_first = _re.sub(r'(?m)^target_file_path\s*=.*$', 'target_file_path = "out/first_run_schema%s"' % sfx, cfg_first)
+                    if cfg_first != texts_before["pyproject.toml"]:
+                        # on disk now: the un-faulted sources + the first-run configuration; the child restores the fault
+                        for k in changed:
+                            pth = os.path.join(root, k)
+                            if k in texts_before:
+                                with open(pth, "w", encoding="utf-8") as f_:
+                                    f_.write(texts_before[k])
+                            elif os.path.exists(pth):
+                                os.unlink(pth)
+                        with open(os.path.join(root, "pyproject.toml"), "w", encoding="utf-8") as f_:
+                            f_.write(cfg_first)
+                        then = [{"path": os.path.join(root, k), "text": v} for k, v in sorted(changed.items()) if k != "pyproject.toml"]
+                        then.append({"path": os.path.join(root, "pyproject.toml"), "text": cfg_now})
+                        pre_runs = [{"cwd": root, "argv": list(mat["argv"]), "then_write": then}]
+                        res.bump("history.valid_generation_first_in_same_interpreter")
         if prior == "absent_parent" and world["strategy"] == "graphqlschema" and expect[0] == "invalid":
             # the directory the schema file would be written into does not exist yet: a rejected run must not create it
             # (for the client strategy a missing target_package_path is itself a configuration fault: target_path_missing)
@@ -770,10 +861,20 @@ def run_case(case, ch: Choices) -> RunResult:
                 os.rmdir(out_dir)
                 res.bump("prior.absent_parent_applied")
         before = _project_snapshot(root)
-        r = genrun.run_child(root, ctx.argv, mat["targets"], env=ctx.env, env_unset=ctx.env_unset)
+        r = genrun.run_child(root, ctx.argv, mat["targets"], env=ctx.env, env_unset=ctx.env_unset, pre_runs=pre_runs,
+                             timeout=90 if not pre_runs else 200)
         if r.get("harness_failure"):
             raise RuntimeError("child failed: %s" % r.get("child_stderr"))
         after = _project_snapshot(root)
+        if pre_runs:
+            # the first run's own output and the files it was given are not part of the comparison: "before" is the project
+            # as the judged run found it (the child restored the faulted files), minus what the first run generated
+            drop = lambda snap: {k: v for k, v in snap.items() if not k.startswith(("out/first_run_pkg", "out/first_run_schema"))}
+            after = drop(after)
+            before = {k: v for k, v in _snapshot_with_texts(before, root, {w_["path"]: w_["text"] for w_ in pre_runs[0]["then_write"]}).items()
+                      if not k.startswith(("out/first_run_pkg", "out/first_run_schema"))}
+            if (r.get("pre_runs") or [{}])[0].get("outcome") != "0":
+                res.observations.append("first-run-in-same-interpreter-failed:%s" % (r.get("pre_runs") or [{}])[0].get("outcome"))
         exc = r.get("exc") or {}
         fam = fault_name.split(":")[0]
         res.bump("fault." + fam)
